@@ -1,9 +1,10 @@
 Require Import FastZ.
-From Dashu Require Import Base.Prelude Float.RoundSpec Float.Contract Float.Model Float.ElemEncl Float.ElemEntry.
+From Dashu Require Import Base.Prelude Float.RoundSpec Float.Contract Float.Model Float.ElemEncl Float.ElemEntry Float.ElemF32 Float.ElemAsis.
 (* CoqInterval's enclosure code is pure Z code, but extraction drags the real-number axiom
    sig_forall_dec in as a top-level value that would raise at module initialisation; it is never
    called (DESIGN section 6, named in TRUSTED_BASE of props/C11.py). *)
 Extract Constant ClassicalDedekindReals.sig_forall_dec => "(fun _ -> assert false)".
 Extraction "model.ml" check_exp check_expm1 check_ln check_ln1p check_powi check_powf
   loose_exp loose_expm1 loose_ln loose_ln1p loose_powi loose_powf
-  exp_entry ln_entry ln_entry_before_fix powi_entry powf_entry normalize dlen feq.
+  exp_entry ln_entry ln_entry_before_fix powi_entry powf_entry normalize dlen feq
+  mk_f32ops powi_asis exp_internal ln_internal powf_asis.
